@@ -9,7 +9,7 @@ From Coq Require Import List NArith ZArith Bool Arith Lia.
 From Coq Require Import Init.Byte.
 From FFS Require Import Base.Res Base.Bytes Abi.Spec.
 From FFS Require Import Eip712.Util Eip712.Input Eip712.Numeric Eip712.Coerce Eip712.Model.
-From FFS Require Import Eip712.TotalProofsInput Eip712.TotalProofs Eip712.NumericProofs Eip712.SpellingProofs.
+From FFS Require Import Eip712.TotalProofsInput Eip712.TotalProofs Eip712.NumericProofs Eip712.SpellingProofs Eip712.ExactSpellingProofs.
 Import ListNotations.
 
 Lemma F2_length {A B} (R : A -> B -> Prop) l1 l2 : Forall2 R l1 l2 -> length l1 = length l2.
@@ -22,7 +22,11 @@ Proof. intros Hi. induction 1; constructor; auto. Qed.
 Inductive spelling (z : Z) : gval -> Prop :=
 | sp_num : spelling z (GNumber (dec_text z))
 | sp_dec : spelling z (GString (dec_text z))
-| sp_hex : spelling z (GString (hex_text z)).
+| sp_hex : spelling z (GString (hex_text z))
+(* round 3: every other exact spelling in the decimal / 0x-hex / scientific grammars whose exponent
+   math/big expands ("1e18", "100.0", "1.5e1", "+0x1F"), as a JSON number or inside a string *)
+| sp_exact_num t : text_denotes t z -> exponent_moderate t -> spelling z (GNumber t)
+| sp_exact_str t : text_denotes t z -> exponent_moderate t -> spelling z (GString t).
 
 Section Doc.
   Variable H : bytes -> bytes.
@@ -57,11 +61,12 @@ Section Doc.
 
   Lemma spelling_read z v : spelling z v -> integer_of_gval big_other v = Ok z.
   Proof.
-    destruct (spellings_read_exactly big_other z) as [H1 [H2 H3]]. intros [| |]; assumption.
+    destruct (spellings_read_exactly big_other z) as [H1 [H2 H3]]. intros [| | |t Hd Hm|t Hd Hm]; try assumption;
+    cbn [integer_of_gval]; apply BigIntegerFromString_complete; assumption.
   Qed.
 
   Lemma spelling_depth z v : spelling z v -> gdepth v = O.
-  Proof. intros [| |]; reflexivity. Qed.
+  Proof. intros [| | | |]; reflexivity. Qed.
 
   (* related values have the same shape *)
   Lemma members_rel_depth rel t m1 m2 : members_rel rel t m1 m2 -> gdepth (GMap m1) = gdepth (GMap m2).
